@@ -180,7 +180,7 @@ def make_problem(cfg):
     if cfg.get("oshift") is not None:
         pr.oshift = np.array(cfg["oshift"], dtype=float)        # objectives that are negative for every point of the box (e.g. -f of a maximisation)
     if cfg.get("pole") is not None:
-        pr.pole = (int(cfg["pole"][0]), int(cfg["pole"][1]), float(cfg["pole"][2]))
+        pr.pole = (int(cfg["pole"][0]) % cfg["n_obj"], int(cfg["pole"][1]) % cfg["n_var"], float(cfg["pole"][2]))     # (shapes may have been edited after generation)
     return pr
 
 
